@@ -15,7 +15,7 @@ from . import ops
 from .ctx import Ctx, PathEnd, Infeasible, ReturnEx, BreakEx, ContinueEx, RaiseEx
 from .values import (
     set_term, ViewList,
-    SV, SInt, SBool, SReal, SBytes, SStr, SSeq, SEnum, SOpaque, SObj, SymRecDict, Unsupported,
+    SV, SInt, SBool, SReal, SBytes, SStr, SSeq, SEnum, SOpaque, SObj, SymRecDict, Unsupported, LazyValue,
     Int, Bool, Real, Bytes, ByteArray, Str, ListOf, TupleOf, sort_of, has_sym, ISEQ, Sort, SArr,
 )
 
@@ -301,7 +301,10 @@ class Interp:
     def getattr_(self, obj, name):
         if isinstance(obj, SObj):
             if name in obj.fields:
-                return obj.fields[name]
+                v = obj.fields[name]
+                if isinstance(v, LazyValue):
+                    v = obj.fields[name] = v.force(self)
+                return v
             if name == "__class__":
                 return obj.cls
             if name == "__dict__":
@@ -550,6 +553,13 @@ class Interp:
             frame.cls = self.env.owner_class(fn)
         elif clo.frame is not None:
             frame.cls = clo.frame.cls
+        if fn is not None and getattr(fn, "__closure__", None):
+            # free variables of a real closure (e.g. contract clauses generated in a loop)
+            for name, cell in zip(fn.__code__.co_freevars, fn.__closure__):
+                try:
+                    frame.locals[name] = cell.cell_contents
+                except ValueError:
+                    pass
         self.bind_args(clo, args, kwargs, frame)
         if isinstance(node, ast.Lambda):
             return self.with_frame(frame, lambda: self.eval(node.body, frame))
@@ -890,8 +900,9 @@ class Interp:
     def x_For(self, node, frame):
         it = self.eval(node.iter, frame)
         inv = self.env.loop_invariant(self, frame, node)
-        if inv is not None:
+        if inv is not None and (getattr(inv[2], "inductive", False) or not (isinstance(it, (range, list, tuple)) and len(it) <= 16)):
             return self.env.run_loop_with_invariant(self, frame, node, inv, it)
+        # (a short CONCRETE iterable is simply unrolled, invariant or not)
         for item in self.iterate(it, node.lineno):
             self.assign(node.target, item, frame)
             try:
